@@ -134,7 +134,9 @@ class World(object):
                 kw = {}
                 if e["a"]:
                     kw["data"] = arr(e["a"])
-                if e["m"]:
+                if e["m"] == 8:           # falsy new metadata must be applied too
+                    kw.update(unit="", descr="", value="")
+                elif e["m"]:
                     u, d, v = META[e["m"]]
                     kw["unit"] = u
                     if e["m"] == 7:
@@ -263,7 +265,7 @@ def random_histories(ctx, rng, n, maxops, names, read_case=None):
             if op == "setitem_item" and rng.random() < 0.7:
                 e["k"] = "UNKNOWN" if e["n"].strip() == "" else e["n"]
             if op in ("update_mn", "update_ix"):
-                e["a"], e["m"] = rng.choice([(3, 0), (0, 1), (5, 7), (3, 1)])
+                e["a"], e["m"] = rng.choice([(3, 0), (0, 1), (5, 7), (3, 1), (0, 8), (4, 8)])
             if op == "setitem_arr":
                 e["a"] = rng.choice([3, 5])
             if op == "set_data":
